@@ -37,10 +37,11 @@ LEVEL_TEXT = (
     "levels 0/1/2/s observed by wrapping FunctionPass.run, random pass sequences) on checker-accepted input is fed through that checker on "
     "every run, so each acceptance is a kernel-checked proof that THIS output is well-formed; a Python exception in a pass is a failing input. "
     "(P) Lean theorems about the pass models Model.Opt, for all inputs: Value.replace_by keeps WF under type/dominance side conditions "
-    "(replace_by_preserves_wf), CommonSubexpressionElimination keeps every well-formed module well-formed (cse_preserves_wf, no side "
-    "condition), RemoveAddZero does so when no call goes through the result of a binop (removeAddZero_preserves_wf_partial; the unguarded "
-    "statement is refuted by a Lean-checked witness = open finding). NOT shown as theorems: DeleteUnused, ConstantFolder (stated as "
-    "*_full), LoadAfterStore, CJump, mem2reg, clean, tailcall - for those only the per-output validation holds."
+    "(replace_by_preserves_wf), CommonSubexpressionElimination and DeleteUnusedInstructions keep every well-formed module well-formed "
+    "(cse_preserves_wf, deleteUnused_preserves_wf, no side condition), RemoveAddZero does so when no call goes through the result of a "
+    "binop (removeAddZero_preserves_wf_partial; the unguarded statement is refuted by a Lean-checked witness = open finding). NOT shown as "
+    "theorems: ConstantFolder (stated as constFold_preserves_wf_full), LoadAfterStore, CJump, mem2reg, clean, tailcall - for those only "
+    "the per-output validation holds."
 )
 LEVEL_NOTE = (
     "trusted: Lean kernel; axioms propext/Classical.choice/Quot.sound; the structural serialiser harness/irser.py (ppci objects -> Spec.IR "
@@ -71,7 +72,7 @@ WORKERS = int(os.environ.get("C03_WORKERS", "4"))
 #: short name -> how to get the class; the order is the order of the api.optimize pipeline, CJumpPass last
 PASS_NAMES = ["mem2reg", "addzero", "constfold", "cse", "tailcall", "las", "delunused", "clean", "cjump"]
 #: passes whose Lean model is tied by correspondence here (the ones the preservation theorems are about)
-MODELLED = ["addzero", "cse", "delunused", "constfold"]
+MODELLED = ["addzero", "cse", "delunused"]
 
 
 def pass_classes():
@@ -161,6 +162,8 @@ def K(name, funcs, vars_="", externs=""):
     return f"(module {name} (externs{externs}) (vars{vars_}) (funcs {funcs}))"
 
 
+INF_BITS = 9218868437227405312
+NAN_BITS = 9221120237041090560
 F1 = "(func f1 local i32 e (params (x i32)) (blocks (block e (ret %x)))) "
 
 CORPUS = [
@@ -274,6 +277,15 @@ CORPUS = [
     ("constfold-dead-rem0", K("k23", "(func f global i32 e (params (x i32)) (blocks "
      "(block e (const %z i32 0) (const %c7 i32 7) (cjump %x ne %z dead live)) "
      "(block dead (binop %u i32 rem %c7 %z) (ret %u)) (block live (ret %x))))")),
+    # constant operations that are undefined at run time (the folder must leave them alone, not raise)
+    ("constfold-undefined-ops", K("k26", "(func f global i32 e (params (x i32)) (blocks "
+     "(block e (const %a i32 7) (const %z i32 0) (const %n i32 -3) (cjump %x ne %z dead live)) "
+     "(block dead (binop %u i32 div %a %z) (binop %v i32 shl %a %n) (binop %w i32 shr %a %n) "
+     "(binop %s i32 add %u %v) (binop %t i32 add %s %w) (ret %t)) (block live (ret %x))))")),
+    ("constfold-cast-inf-nan", K("k27", "(func f global i32 e (params (x i32)) (blocks "
+     "(block e (const %z i32 0) (fconst %i f64 INF) (fconst %q f64 NAN) (cjump %x ne %z dead live)) "
+     "(block dead (cast %u i32 %i) (cast %v i32 %q) (binop %s i32 add %u %v) (ret %s)) (block live (ret %x))))"
+     .replace("INF", "%d" % INF_BITS).replace("NAN", "%d" % NAN_BITS))),
     ("constfold-chain", K("k24", "(func f global i8 e (params (y i8)) (blocks (block e "
      "(const %c i8 100) (binop %a i8 add %y %c) (binop %b i8 add %a %c) (cast %w i32 %c) (cast %v i8 %w) "
      "(binop %r i8 sub %b %v) (ret %r))))")),
@@ -549,7 +561,7 @@ def check(ctx):
     pass_set, order = pipeline_pass_set()
     ctx.extra_cov["optimize_pipeline"] = order
     inputs = corpus_texts() + c_texts()
-    ngen = 40 if ctx.thorough else 5
+    ngen = 100 if ctx.thorough else 5
     inputs += gen_texts(ctx, ngen)
     plans = []
     t0 = time.time()
@@ -557,10 +569,10 @@ def check(ctx):
         small = len(text) < 6000
         if ctx.thorough:
             levels = ["0", "1", "2", "s"] if small else ["0", "2"]
-            nseq = 6 if small else 2
+            nseq = 8 if small else 3
         else:
             levels = ["0", "2"] + (["1", "s"] if tag.startswith("corpus:") else [])
-            nseq = 2 if small else 1
+            nseq = 2 if small else (1 if tag.startswith("gen") else 0)
         pl = make_plan(ctx, tag, text, pass_set, nseq, levels, with_model=True)
         if pl is not None:
             plans.append(pl)
